@@ -130,6 +130,10 @@ def probes(syn, key, val):
         yield 'new-key-shape', 'zzq', {'snippets': {'zzq': body, key: val}}, eq(prop + between + first + after, 'new-key-unreachable')
         yield 'new-key-keyword', 'zzq:' + kw, {'snippets': {'zzq': body, key: val}}, eq(prop + between + kw + after, 'new-key-keyword-not-resolved')
         yield 'new-key-property-scope', 'zzq', {'snippets': {'zzq': body, key: val}, 'context': {'name': '@@property'}}, eq(prop + between + first + after, 'scope:property-prop-unreachable')
+    # a user-defined key with upper-case letters, typed exactly
+    yield 'new-key-camel', 'zzQx', {'snippets': {'zzQx': 'foo-prop:bar|baz', key: val}}, eq('foo-prop' + between + 'bar' + after, 'new-key-unreachable')
+    yield 'new-key-camel-keyword', 'zzQx:baz', {'snippets': {'zzQx': 'foo-prop:bar|baz', key: val}}, eq('foo-prop' + between + 'baz' + after, 'new-key-keyword-not-resolved')
+    yield 'new-key-camel-raw', 'zzQx', {'snippets': {'zzQx': 'raw ${1:body} text', key: val}}, eq('raw body text', 'new-key-unreachable')
     # raw bodies are compared with their tabstops (exact text): leading, adjacent and trailing tabstops
     for body in ('${1:sel} {\n\t${0}\n}', '-moz-${1:p}${2}: ${3};', 'a ${1} b ${2:c}'):
         yield 'new-key-raw', 'zzr', {'snippets': {'zzr': body, key: val}}, exact(body, 'raw-body-tabstops-changed')
